@@ -171,25 +171,28 @@ def prepare_workspace() -> dict:
     """
     out = {"changed": [], "error": None, "private_workspace": None}
     try:
-        content = translate.render_tables()
+        files = translate.render_all()
     except translate.TranslationError as e:
         out["error"] = str(e)
         return out
-    target = paths.LEAN / "VivModel" / "Gen" / "Tables.lean"
-    if target.exists() and target.read_text() == content:
+    differing = [rel for rel, content in files.items()
+                 if not ((paths.LEAN / rel).exists() and (paths.LEAN / rel).read_text() == content)]
+    if not differing:
         return out
     if str(paths.repo()) == "/repo":
         with Lock():
-            if translate.write_if_changed(target, content):
-                out["changed"].append("lean/VivModel/Gen/Tables.lean")
+            for rel in differing:
+                if translate.write_if_changed(paths.LEAN / rel, files[rel]):
+                    out["changed"].append("lean/" + rel)
         return out
     import shutil
     import tempfile
     d = pathlib.Path(tempfile.mkdtemp(prefix="vlean-"))
-    shutil.copytree(paths.LEAN, d / "lean", symlinks=True, ignore=shutil.ignore_patterns(".build.lock", ".tables.lock"))
+    shutil.copytree(paths.LEAN, d / "lean", symlinks=True, ignore=shutil.ignore_patterns(".build.lock", ".tables.lock", "scratch"))
     paths.LEAN = d / "lean"
-    translate.write_if_changed(paths.LEAN / "VivModel" / "Gen" / "Tables.lean", content)
-    out["changed"].append("Gen/Tables.lean (private workspace)")
+    for rel in differing:
+        translate.write_if_changed(paths.LEAN / rel, files[rel])
+        out["changed"].append(rel.replace("VivModel/", "") + " (private workspace)")
     out["private_workspace"] = str(d)
     return out
 
